@@ -129,6 +129,7 @@ def explore(check, tier, seed=0):
     build.build(probe=check.need_probe)
     t_build = time.time() - t0
     _CHECK = check
+    os.environ["VERIF_TIER_"] = tier
     cap = check.quick_cap_s if tier == "quick" else check.thorough_cap_s
     cap = float(os.environ.get("VERIF_CAP_S", cap))
     findings = load_findings()
